@@ -316,9 +316,9 @@ def check_accounting(ck, cm: CacheModel):
                     ename = st.targets[0].id if st.value is c else None
                     subs, others = _size_flow(fa, cm, st, "entry" if st.value is c else "size")
                     # every path from the pop to the exit either subtracts or found nothing (the popped value is None / falsy)
-                    popx = A.norm(c)
-                    edge_ok = branch_filter(fa, lambda t_, p_, popx=popx, ename=ename: (p_ and t_ in (popx + " is None", str(ename) + " is None"))
-                                            or (not p_ and t_ in (popx, ename)))
+                    # (the literal of a test names the pop with its locals written out: `old is None` reads `self.map.pop(<key expression>, None) is None`)
+                    popxs = {A.norm(c), _xn(fa, c, st), str(ename)}
+                    edge_ok = branch_filter(fa, lambda t_, p_, popxs=popxs: (p_ and t_ in {x + " is None" for x in popxs}) or (not p_ and t_ in popxs))
                     subn = fa.nodes_all(subs)
                     # (a pop that raises has taken nothing out: the exception edge of the pop statement itself is not a path "after the pop")
                     popn = set(fa.nodes(st))
@@ -399,7 +399,13 @@ def check_accounting(ck, cm: CacheModel):
                               "the inserted key is appended to the recency queue %d times in the block" % len(app), fa.where(st))
                         # overwrite cannot leak: an eviction of the same key dominates the insertion
                         ev = [c for c in fa.calls(cm.evict.name) if cm.is_self_call(c, cm.evict) and c.args and _xn(fa, c.args[0], c) == kx]
-                        dom = bool(ev) and all(fa.cfg.must_pass(fa.nodes_all(ev), n) for n in ins_nodes)
+                        # ... or the entry of that key is taken out of the map right here (each such statement is held to the
+                        # accounting of a deletion above); a way round it on which the key is known not to be resident needs none
+                        ev += [s2 for s2 in fa.stmts(ast.Delete) if any(isinstance(t2, ast.Subscript) and self_attr(t2.value, cm.map) and _xn(fa, t2.slice, s2) == kx
+                                                                       for t2 in s2.targets)]
+                        ev += [c for c in fa.calls("pop") if self_attr(A.call_recv(c), cm.map) and c.args and _xn(fa, c.args[0], c) == kx]
+                        not_resident = branch_filter(fa, lambda t_, p_, kx=kx: not p_ and t_ in ("%s in self.%s" % (kx, cm.map), "%s in self.%s.keys()" % (kx, cm.map)))
+                        dom = bool(ev) and all(fa.cfg.must_pass(fa.nodes_all(ev), n, edge_ok=not_resident) for n in ins_nodes)
                         ck.ob(R, fa.key(st, "ins-after-evict"), dom,
                               "an eviction of the same key dominates the insertion" if dom else
                               "the insertion is not dominated by an eviction of the same key: an overwrite leaks the old size",
